@@ -188,12 +188,12 @@ def masks(ctx):
     ob = ctx.ob("C15.3", "byte-enable mask widths: a constant ASSIGNED to a byte-enable slice must have at least slice-width low one-bits (Migen "
                          "truncates); a constant COMPARED with a byte-enable slice must be the all-ones value of exactly the slice width (Migen "
                          "zero-extends, so a wider constant never matches and every full write would be reported as a granularity error)", 8)
-    bad_cmp, bad_asg = [], []
+    bad_cmp, bad_asg, bad_fn = [], [], []
     for (wf_, wt_, bc) in CONFIGS:
         kw = {"data_width_from": Const(wf_), "data_width_to": Const(wt_), "burst_cycles": Const(bc)}
         w = elab(ctx, ECC, "LiteDRAMNativePortECCW", kwargs=kw)
         tag = "from=%d to=%d lanes=%d" % (wf_, wt_, bc)
-        n_assign = n_cmp = 0
+        n_assign = n_cmp = n_fn = 0
         for l in w.leaves:
             if l.kind == "assign":
                 sb = slice_bounds(l.target)
@@ -225,6 +225,60 @@ def masks(ctx):
                                                     (tag, sb[1], sb[2], W, (1 << W) - 1, b.v), l.loc))
         if n_cmp == 0 or n_assign == 0:
             ob.unknown("%s: byte-enable assignment / we_error comparison not found (%d/%d)" % (tag, n_assign, n_cmp))
+        # the flag as a function of the lane's byte enables: raised for EVERY pattern that is not all ones (a lane left wholly disabled included)
+        for l in w.drivers("we_error"):
+            if is0(l.value):
+                continue
+            cj = [(c0, p0) for c0, p0 in l.guards] + ([(a0, p0) for a0, p0 in conj(l.value)] if not is1(l.value) else [])
+            lane = None
+            for c0, p0 in cj:
+                for t in subterms(expand_term(w, c0)):
+                    sb = slice_bounds(t)
+                    if sb and sb[0] == "sink.we":
+                        lane = sb
+            if lane is None or not (0 < width_of_slice(lane) <= 8):
+                continue
+            Wl = width_of_slice(lane)
+
+            class _NoEval(Exception):
+                pass
+
+            def ev_(t, val):
+                if isinstance(t, Const) and isinstance(t.v, (int, bool)):
+                    return int(t.v)
+                sb_ = slice_bounds(t)
+                if sb_ == lane:
+                    return val
+                if key(t) == "sink.valid":
+                    return 1
+                if isinstance(t, Op) and t.op in ("==", "!=") and len(t.args) == 2:
+                    r_ = ev_(t.args[0], val) == ev_(t.args[1], val)
+                    return int(r_ if t.op == "==" else not r_)
+                if isinstance(t, Op) and t.op in ("&", "|") :
+                    vs_ = [ev_(x, val) for x in t.args]
+                    r_ = vs_[0]
+                    for x in vs_[1:]:
+                        r_ = (r_ & x) if t.op == "&" else (r_ | x)
+                    return r_
+                if isinstance(t, Op) and t.op == "~" and all(ev_(x, val) in (0, 1) for x in t.args):
+                    return 1 - ev_(t.args[0], val)
+                raise _NoEval()
+            try:
+                wit = None
+                for val in range(1 << Wl):
+                    got = all(bool(ev_(expand_term(w, c0), val)) == p0 for c0, p0 in cj)
+                    if got != (val != (1 << Wl) - 1):
+                        wit = (val, got)
+                        break
+                n_fn += 1
+                if n_fn <= 2:
+                    ob.instance("%s we_error as a function of sink.we[%d:%d]" % (tag, lane[1], lane[2]), {"patterns": 1 << Wl, "differs at": wit})
+                if wit is not None and wit[0] != (1 << Wl) - 1:
+                    bad_fn.append(("%s: with sink.valid and sink.we[%d:%d] = %s the flag is %s" % (tag, lane[1], lane[2], bin(wit[0]), wit[1]), l.loc))
+            except _NoEval:
+                pass
+        if tag == "from=%d to=%d lanes=%d" % CONFIGS[0]:
+            ob.instance("%s: lanes whose granularity flag was evaluated over all byte-enable patterns" % tag, n_fn, nontrivial=n_fn > 0)
         for l in w.drivers("we_error"):
             if "sink.valid" not in (w.guard_keys(l, False) | (litset(conj(l.value)) if not is1(l.value) else set())) and not is0(l.value):
                 ob.refute("we_error-valid", "we_error can be raised without sink.valid", l.loc)
@@ -232,6 +286,9 @@ def masks(ctx):
         ob.refute("we_error-compare-constant", "the granularity check compares a byte-enable slice with a constant that is not the all-ones value of "
                   "the slice width, so a write that enables every byte of the lane is still reported as a granularity error (%d lane/config "
                   "instances, e.g. %s)" % (len(bad_cmp), "; ".join(m for m, _ in bad_cmp[:3])), bad_cmp[0][1], [m for m, _ in bad_cmp[:20]])
+    if bad_fn:
+        ob.refute("we_error-pattern-exempt", "the granularity flag is not raised for every byte-enable pattern that leaves part of an ECC word disabled (%d lane/config instances, "
+                  "e.g. %s): such a write is not reported" % (len(bad_fn), "; ".join(m for m, _ in bad_fn[:3])), bad_fn[0][1], [m for m, _ in bad_fn[:20]])
     if bad_asg:
         ob.refute("we-assign-constant", "a byte-enable slice of the code word is assigned a constant that does not enable all its bytes (%d instances, "
                   "e.g. %s)" % (len(bad_asg), "; ".join(m for m, _ in bad_asg[:3])), bad_asg[0][1], [m for m, _ in bad_asg[:20]])
